@@ -67,7 +67,7 @@ def build(variant="prod"):
     t0 = time.time()
     p = subprocess.run(
         ["cargo", "build", "--release", "--offline", "--target-dir", tdir],
-        cwd=HARNESS, env=env, stdout=subprocess.PIPE, stderr=subprocess.STDOUT, text=True)
+        cwd=HARNESS, env=env, stdout=subprocess.PIPE, stderr=subprocess.STDOUT, text=True, errors="replace")
     if p.returncode != 0:
         log(p.stdout[-6000:])
         raise ToolError(f"harness build failed ({variant})")
@@ -126,7 +126,7 @@ def zv(variant, args, timeout=1800):
     t0 = time.time()
     exe = zv_path(variant)
     p = subprocess.run([exe] + [str(a) for a in args], cwd=ROOT, env=base_env(),
-                       stdout=subprocess.PIPE, stderr=subprocess.STDOUT, text=True, timeout=timeout)
+                       stdout=subprocess.PIPE, stderr=subprocess.STDOUT, text=True, errors="replace", timeout=timeout)
     if p.returncode == 3 and _recover_hung(args):
         return p.stdout
     if p.returncode != 0:
@@ -189,7 +189,7 @@ def tlc(module, cfg, workers=8, env_extra=None, timeout=3600, simulate=None, cov
             cfg = cfg[len(sub) + 1:]
     cmd += ["-config", cfg, module + ".tla"]
     t0 = time.time()
-    p = subprocess.run(cmd, cwd=cwd, env=env, stdout=subprocess.PIPE, stderr=subprocess.STDOUT, text=True)
+    p = subprocess.run(cmd, cwd=cwd, env=env, stdout=subprocess.PIPE, stderr=subprocess.STDOUT, text=True, errors="replace")
     r = TlcResult()
     r.wall = time.time() - t0
     r.out = p.stdout
@@ -265,7 +265,7 @@ def apalache_inductive(chk, module, timeout=900):
     for name, args, want in runs:
         try:
             p = subprocess.run(["timeout", str(timeout), "apalache-mc", "check", f"--out-dir={wd}", "--cinit=ConstInit", "--inv=IndInv"]
-                               + args + [src], cwd=wd, env=base_env(), stdout=subprocess.PIPE, stderr=subprocess.STDOUT, text=True)
+                               + args + [src], cwd=wd, env=base_env(), stdout=subprocess.PIPE, stderr=subprocess.STDOUT, text=True, errors="replace")
             m = re.search(r"The outcome is: (\w+)", p.stdout)
             res[name] = m.group(1) if m else f"no outcome (exit {p.returncode})"
         except Exception as e:          # noqa: BLE001 - tool not installed, ...
@@ -296,7 +296,7 @@ def tlaps_proof(chk, module, timeout=900):
     res = {"proved": 0, "failed": None, "outcome": "not run"}
     try:
         p = subprocess.run(["timeout", str(timeout), "tlapm", "--threads", "4", "--cleanfp", module + ".tla"], cwd=wd, env=base_env(),
-                           stdout=subprocess.PIPE, stderr=subprocess.STDOUT, text=True)
+                           stdout=subprocess.PIPE, stderr=subprocess.STDOUT, text=True, errors="replace")
         m = re.search(r"All (\d+) obligations? proved", p.stdout)
         if m:
             res = {"proved": int(m.group(1)), "failed": 0, "outcome": "all proved"}
@@ -328,7 +328,7 @@ def tlc_counterexample(out, limit=60):
 # --------------------------------------------------------------------------- traces
 
 def read_lines(path):
-    with open(path) as f:
+    with open(path, errors="replace") as f:
         # only LF ends a record (str.splitlines would also split at U+0085, U+2028, ... inside JSON strings)
         return [l for l in f.read().split("\n") if l.strip()]
 
